@@ -28,8 +28,9 @@ inline void Jitter(u32 n) {
 #endif
 }
 
-enum LockForm { lLock, lGuard, lGuardSticky, lTryLock, lTryGuard, lGuardRelock, lDeferredTryLock, kLockForms };
-const char* const kLockName[] = {"Lock", "Guard", "GuardSticky", "TryLock", "TryGuard", "Guard+re-Lock", "deferred-guard.TryLock"};
+enum LockForm { lLock, lGuard, lGuardSticky, lTryLock, lTryGuard, lGuardRelock, lDeferredTryLock, lCoupling, kLockForms };
+const char* const kLockName[] = {"Lock", "Guard", "GuardSticky", "TryLock", "TryGuard", "Guard+re-Lock", "deferred-guard.TryLock",
+                                 "Guard, then move-assigned the Guard of a second mutex"};
 enum UnlockForm { uUnlock, uUnlockOn, uUnlockHere, uDtor, kUnlockForms };
 const char* const kUnlockName[] = {"Unlock", "UnlockOn", "UnlockHere", "guard-dtor"};
 
@@ -37,6 +38,7 @@ struct Round {
   int lock_form = 0;
   int unlock_form = 0;
   u32 cs_yields = 0;
+  u32 cs_suspend = 0;  // suspensions of the coroutine while it holds the lock
   u32 gap = 0;
 };
 
@@ -54,6 +56,7 @@ struct MWorld {
   std::atomic<long> grants{0};
   std::atomic<long> try_fail{0};
   std::atomic<int> failed_try_owns{0};  // a guard reported ownership after its TryLock() returned false
+  std::atomic<int> inside2{0}, overlap2{0}, coupling_bad{0};  // second mutex of the lock-coupling form
   long plain = 0;  // written in every critical section, read in the next one
   std::atomic<int> lost_update{0};
   std::atomic<u32> nlog{0};
@@ -79,6 +82,15 @@ inline void Leave(MWorld& w) {
   w.inside.fetch_sub(1, kRlx);
 }
 
+// inside a critical section: a few yields of the worker and, sometimes, real suspensions of the coroutine (it re-submits
+// itself to its pool while holding the lock, so that the others run, find the lock taken and queue up behind it - on
+// a single worker this is the only way waiters can exist at all)
+#define VF_HOLD_SECTION()                                                                                              \
+  Jitter(rd.cs_yields);                                                                                                \
+  for (u32 hs = 0; hs < rd.cs_suspend; ++hs) {                                                                         \
+    co_await yaclib::On(e1);                                                                                           \
+  }
+
 template <bool Batching, bool FIFO>
 void MutexCase(Ctx& ctx) {
   ResetTags();
@@ -95,6 +107,7 @@ void MutexCase(Ctx& ctx) {
       rd.lock_form = static_cast<int>(ctx.rng.Below(kLockForms));
       rd.unlock_form = static_cast<int>(ctx.rng.Below(kUnlockForms));
       rd.cs_yields = ctx.rng.Below(3);
+      rd.cs_suspend = ctx.rng.Below(3) == 0 ? ctx.rng.In(1, 2) : 0;
       rd.gap = ctx.rng.Below(3);
       p.push_back(rd);
       ++total;
@@ -104,6 +117,7 @@ void MutexCase(Ctx& ctx) {
   }
   MWorld w;
   M m;
+  M m2;
   auto pool = yaclib::MakeFairThreadPool(static_cast<std::uint64_t>(n));
   auto pool2 = yaclib::MakeFairThreadPool(1);
   TagExec e1{1, *pool};
@@ -119,7 +133,7 @@ void MutexCase(Ctx& ctx) {
         case lLock: {
           co_await m.Lock();
           Enter(w, req, id, true);
-          Jitter(rd.cs_yields);
+          VF_HOLD_SECTION();
           Leave(w);
           if (rd.unlock_form == uUnlock) {
             co_await m.Unlock();
@@ -137,7 +151,7 @@ void MutexCase(Ctx& ctx) {
         case lGuardRelock: {
           auto g = co_await m.Guard();
           Enter(w, req, id, true);
-          Jitter(rd.cs_yields);
+          VF_HOLD_SECTION();
           Leave(w);
           if (rd.lock_form == lGuardRelock) {
             co_await g.Unlock();
@@ -160,10 +174,30 @@ void MutexCase(Ctx& ctx) {
           }
           // uDtor: destructor releases
         } break;
+        case lCoupling: {
+          // lock coupling: the guard of the first mutex is overwritten by the guard of the second one; move assignment
+          // must release what the target owned (here through the temporary that takes it over)
+          auto g = co_await m.Guard();
+          Enter(w, req, id, true);
+          VF_HOLD_SECTION();
+          Leave(w);
+          g = co_await m2.Guard();
+          if (!g.OwnsLock() || g.Mutex() != &m2) {
+            w.coupling_bad.fetch_add(1, kRlx);
+          }
+          if (w.inside2.fetch_add(1, kRlx) != 0) {
+            w.overlap2.fetch_add(1, kRlx);
+          }
+          Jitter(1);
+          w.inside2.fetch_sub(1, kRlx);
+          if (rd.unlock_form == uUnlockHere) {
+            g.UnlockHere();
+          }
+        } break;
         case lGuardSticky: {
           auto g = co_await m.GuardSticky();
           Enter(w, req, id, true);
-          Jitter(rd.cs_yields);
+          VF_HOLD_SECTION();
           Leave(w);
           if (rd.unlock_form == uUnlock || rd.unlock_form == uUnlockOn) {
             co_await g.Unlock();
@@ -182,7 +216,7 @@ void MutexCase(Ctx& ctx) {
             req = Stamp();
           }
           Enter(w, req, id, false);
-          Jitter(rd.cs_yields);
+          VF_HOLD_SECTION();
           Leave(w);
           if (rd.unlock_form == uUnlock) {
             co_await m.Unlock();
@@ -204,7 +238,7 @@ void MutexCase(Ctx& ctx) {
             req = Stamp();
           }
           Enter(w, req, id, false);
-          Jitter(rd.cs_yields);
+          VF_HOLD_SECTION();
           Leave(w);
           if (rd.unlock_form == uUnlock) {
             co_await g.Unlock();
@@ -217,7 +251,7 @@ void MutexCase(Ctx& ctx) {
             auto g = m.TryGuard();
             if (g) {
               Enter(w, req, id, false);
-              Jitter(rd.cs_yields);
+              VF_HOLD_SECTION();
               Leave(w);
               if (rd.unlock_form == uUnlock) {
                 co_await g.Unlock();
@@ -269,6 +303,16 @@ void MutexCase(Ctx& ctx) {
             w.max_inside.load(kRlx));
   ctx.Check(w.grants.load(kRlx) == total && w.requests.load(kRlx) == total, "granted-exactly-once", "C14",
             "%ld requests, %ld grants, expected %ld", w.requests.load(kRlx), w.grants.load(kRlx), total);
+  ctx.Check(w.overlap2.load(kRlx) == 0 && w.coupling_bad.load(kRlx) == 0, "lock-coupling", "C14",
+            "second mutex of the lock-coupling form: %d overlapping holders, %d guards that did not own it after the move assignment",
+            w.overlap2.load(kRlx), w.coupling_bad.load(kRlx));
+  {
+    bool free2 = m2.TryLock();
+    ctx.Check(free2, "not-free-at-end", "C14", "the second mutex is still locked although every guard that owned it is gone");
+    if (free2) {
+      m2.UnlockHere();
+    }
+  }
   ctx.Check(w.failed_try_owns.load(kRlx) == 0, "failed-try-owns", "C14",
             "%d times a guard owned the lock although its TryLock() had just returned false", w.failed_try_owns.load(kRlx));
   ctx.Check(w.plain == w.grants.load(kRlx), "cs-visibility", "C14,C04",
